@@ -107,7 +107,7 @@ def run_design(ctx, jobs):
         r, violated = run_tlc("GThread_" + label, cfg, workers)
         return label, kw, expect, r, violated
     out = []
-    with ThreadPoolExecutor(max_workers=max(1, len(jobs))) as ex:
+    with ThreadPoolExecutor(max_workers=max(1, len(jobs)) if ctx.quick else 5) as ex:
         for label, kw, expect, r, violated in ex.map(one, jobs):
             out.append((label, kw, expect, r, violated))
     return out
@@ -269,17 +269,24 @@ def scenario_class(r, verdict, step):
     # otherwise: name the worker path that acted last on a connection before the failing point
     last = None
     if verdict == "Accounting":
-        # root event: the first event after the last point at which nr_conns was exact
-        opened, root = 0, None
+        # root event: the event at which the error of nr_conns took the value it still has at the
+        # failing observation (transient windows such as accept -> count are skipped)
+        opened, discs = 0, []
         for e in upto:
             if e["e"] == "accept":
                 opened += 1
             elif e["e"] == "close":
                 opened -= 1
-            if e["nr"] == opened:
-                root = None
-            elif root is None:
-                root = e
+            if e["e"] != "accept":          # nr_conns is still being updated at the accept event itself
+                discs.append((e, e["nr"] - opened))
+        k = len(discs) - 1
+        while k > 0 and discs[k - 1][1] == discs[-1][1]:
+            k -= 1
+        root = discs[k][0]
+        if root["e"] == "reg" and root["c"]:
+            prev = [x for x in upto[:upto.index(root)] if x["c"] == root["c"] and x["e"] in ("accept", "jobend")]
+            if prev and prev[-1]["e"] == "accept":
+                return "at-accept"
         if root is not None and root["e"] in ("close", "reclose", "accept", "cancel", "jobend", "finish"):
             last = root
             if last["e"] == "finish":
